@@ -73,12 +73,18 @@ theories/Model/DistFallback.vos theories/Model/DistFallback.vok theories/Model/D
 theories/Model/DistHistory.vo theories/Model/DistHistory.glob theories/Model/DistHistory.v.beautified theories/Model/DistHistory.required_vo: theories/Model/DistHistory.v theories/Model/DistStatus.vo theories/Model/DistFallback.vo
 theories/Model/DistHistory.vio: theories/Model/DistHistory.v theories/Model/DistStatus.vio theories/Model/DistFallback.vio
 theories/Model/DistHistory.vos theories/Model/DistHistory.vok theories/Model/DistHistory.required_vos: theories/Model/DistHistory.v theories/Model/DistStatus.vos theories/Model/DistFallback.vos
+theories/Model/DistPaths.vo theories/Model/DistPaths.glob theories/Model/DistPaths.v.beautified theories/Model/DistPaths.required_vo: theories/Model/DistPaths.v 
+theories/Model/DistPaths.vio: theories/Model/DistPaths.v 
+theories/Model/DistPaths.vos theories/Model/DistPaths.vok theories/Model/DistPaths.required_vos: theories/Model/DistPaths.v 
 theories/Model/DistRustInputs.vo theories/Model/DistRustInputs.glob theories/Model/DistRustInputs.v.beautified theories/Model/DistRustInputs.required_vo: theories/Model/DistRustInputs.v 
 theories/Model/DistRustInputs.vio: theories/Model/DistRustInputs.v 
 theories/Model/DistRustInputs.vos theories/Model/DistRustInputs.vok theories/Model/DistRustInputs.required_vos: theories/Model/DistRustInputs.v 
 theories/Model/DistStatus.vo theories/Model/DistStatus.glob theories/Model/DistStatus.v.beautified theories/Model/DistStatus.required_vo: theories/Model/DistStatus.v 
 theories/Model/DistStatus.vio: theories/Model/DistStatus.v 
 theories/Model/DistStatus.vos theories/Model/DistStatus.vok theories/Model/DistStatus.required_vos: theories/Model/DistStatus.v 
+theories/Model/EntryBytes.vo theories/Model/EntryBytes.glob theories/Model/EntryBytes.v.beautified theories/Model/EntryBytes.required_vo: theories/Model/EntryBytes.v 
+theories/Model/EntryBytes.vio: theories/Model/EntryBytes.v 
+theories/Model/EntryBytes.vos theories/Model/EntryBytes.vok theories/Model/EntryBytes.required_vos: theories/Model/EntryBytes.v 
 theories/Model/Extract.vo theories/Model/Extract.glob theories/Model/Extract.v.beautified theories/Model/Extract.required_vo: theories/Model/Extract.v theories/Base/Sx.vo theories/Model/FsModel.vo
 theories/Model/Extract.vio: theories/Model/Extract.v theories/Base/Sx.vio theories/Model/FsModel.vio
 theories/Model/Extract.vos theories/Model/Extract.vok theories/Model/Extract.required_vos: theories/Model/Extract.v theories/Base/Sx.vos theories/Model/FsModel.vos
@@ -103,6 +109,9 @@ theories/Model/LockOrder.vos theories/Model/LockOrder.vok theories/Model/LockOrd
 theories/Model/Lru.vo theories/Model/Lru.glob theories/Model/Lru.v.beautified theories/Model/Lru.required_vo: theories/Model/Lru.v theories/Base/Sx.vo
 theories/Model/Lru.vio: theories/Model/Lru.v theories/Base/Sx.vio
 theories/Model/Lru.vos theories/Model/Lru.vok theories/Model/Lru.required_vos: theories/Model/Lru.v theories/Base/Sx.vos
+theories/Model/LruPut.vo theories/Model/LruPut.glob theories/Model/LruPut.v.beautified theories/Model/LruPut.required_vo: theories/Model/LruPut.v theories/Base/Sx.vo theories/Model/Lru.vo
+theories/Model/LruPut.vio: theories/Model/LruPut.v theories/Base/Sx.vio theories/Model/Lru.vio
+theories/Model/LruPut.vos theories/Model/LruPut.vok theories/Model/LruPut.required_vos: theories/Model/LruPut.v theories/Base/Sx.vos theories/Model/Lru.vos
 theories/Model/Paths.vo theories/Model/Paths.glob theories/Model/Paths.v.beautified theories/Model/Paths.required_vo: theories/Model/Paths.v theories/Base/Sx.vo
 theories/Model/Paths.vio: theories/Model/Paths.v theories/Base/Sx.vio
 theories/Model/Paths.vos theories/Model/Paths.vok theories/Model/Paths.required_vos: theories/Model/Paths.v theories/Base/Sx.vos
@@ -121,6 +130,9 @@ theories/Model/ReqSM.vos theories/Model/ReqSM.vok theories/Model/ReqSM.required_
 theories/Model/RoCache.vo theories/Model/RoCache.glob theories/Model/RoCache.v.beautified theories/Model/RoCache.required_vo: theories/Model/RoCache.v theories/Base/Sx.vo theories/Model/Lru.vo
 theories/Model/RoCache.vio: theories/Model/RoCache.v theories/Base/Sx.vio theories/Model/Lru.vio
 theories/Model/RoCache.vos theories/Model/RoCache.vok theories/Model/RoCache.required_vos: theories/Model/RoCache.v theories/Base/Sx.vos theories/Model/Lru.vos
+theories/Model/RoConc.vo theories/Model/RoConc.glob theories/Model/RoConc.v.beautified theories/Model/RoConc.required_vo: theories/Model/RoConc.v theories/Base/Sx.vo theories/Model/Lru.vo theories/Model/RoCache.vo
+theories/Model/RoConc.vio: theories/Model/RoConc.v theories/Base/Sx.vio theories/Model/Lru.vio theories/Model/RoCache.vio
+theories/Model/RoConc.vos theories/Model/RoConc.vok theories/Model/RoConc.required_vos: theories/Model/RoConc.v theories/Base/Sx.vos theories/Model/Lru.vos theories/Model/RoCache.vos
 theories/Model/RustArgs.vo theories/Model/RustArgs.glob theories/Model/RustArgs.v.beautified theories/Model/RustArgs.required_vo: theories/Model/RustArgs.v theories/Base/Sx.vo theories/Model/RustPath.vo theories/Gen/C05ArgTable.vo
 theories/Model/RustArgs.vio: theories/Model/RustArgs.v theories/Base/Sx.vio theories/Model/RustPath.vio theories/Gen/C05ArgTable.vio
 theories/Model/RustArgs.vos theories/Model/RustArgs.vok theories/Model/RustArgs.required_vos: theories/Model/RustArgs.v theories/Base/Sx.vos theories/Model/RustPath.vos theories/Gen/C05ArgTable.vos
@@ -130,6 +142,9 @@ theories/Model/RustKey.vos theories/Model/RustKey.vok theories/Model/RustKey.req
 theories/Model/RustPath.vo theories/Model/RustPath.glob theories/Model/RustPath.v.beautified theories/Model/RustPath.required_vo: theories/Model/RustPath.v theories/Base/Sx.vo
 theories/Model/RustPath.vio: theories/Model/RustPath.v theories/Base/Sx.vio
 theories/Model/RustPath.vos theories/Model/RustPath.vok theories/Model/RustPath.required_vos: theories/Model/RustPath.v theories/Base/Sx.vos
+theories/Model/RustToolchain.vo theories/Model/RustToolchain.glob theories/Model/RustToolchain.v.beautified theories/Model/RustToolchain.required_vo: theories/Model/RustToolchain.v 
+theories/Model/RustToolchain.vio: theories/Model/RustToolchain.v 
+theories/Model/RustToolchain.vos theories/Model/RustToolchain.vok theories/Model/RustToolchain.required_vos: theories/Model/RustToolchain.v 
 theories/Model/Scheduler.vo theories/Model/Scheduler.glob theories/Model/Scheduler.v.beautified theories/Model/Scheduler.required_vo: theories/Model/Scheduler.v theories/Base/Sx.vo theories/Gen/C18Consts.vo
 theories/Model/Scheduler.vio: theories/Model/Scheduler.v theories/Base/Sx.vio theories/Gen/C18Consts.vio
 theories/Model/Scheduler.vos theories/Model/Scheduler.vok theories/Model/Scheduler.required_vos: theories/Model/Scheduler.v theories/Base/Sx.vos theories/Gen/C18Consts.vos
@@ -208,6 +223,9 @@ theories/Proofs/DistFallback.vos theories/Proofs/DistFallback.vok theories/Proof
 theories/Proofs/DistHistory.vo theories/Proofs/DistHistory.glob theories/Proofs/DistHistory.v.beautified theories/Proofs/DistHistory.required_vo: theories/Proofs/DistHistory.v theories/Model/DistStatus.vo theories/Model/DistFallback.vo theories/Model/DistHistory.vo theories/Proofs/DistStatus.vo theories/Proofs/DistFallback.vo
 theories/Proofs/DistHistory.vio: theories/Proofs/DistHistory.v theories/Model/DistStatus.vio theories/Model/DistFallback.vio theories/Model/DistHistory.vio theories/Proofs/DistStatus.vio theories/Proofs/DistFallback.vio
 theories/Proofs/DistHistory.vos theories/Proofs/DistHistory.vok theories/Proofs/DistHistory.required_vos: theories/Proofs/DistHistory.v theories/Model/DistStatus.vos theories/Model/DistFallback.vos theories/Model/DistHistory.vos theories/Proofs/DistStatus.vos theories/Proofs/DistFallback.vos
+theories/Proofs/DistPaths.vo theories/Proofs/DistPaths.glob theories/Proofs/DistPaths.v.beautified theories/Proofs/DistPaths.required_vo: theories/Proofs/DistPaths.v theories/Model/DistPaths.vo
+theories/Proofs/DistPaths.vio: theories/Proofs/DistPaths.v theories/Model/DistPaths.vio
+theories/Proofs/DistPaths.vos theories/Proofs/DistPaths.vok theories/Proofs/DistPaths.required_vos: theories/Proofs/DistPaths.v theories/Model/DistPaths.vos
 theories/Proofs/DistRustInputs.vo theories/Proofs/DistRustInputs.glob theories/Proofs/DistRustInputs.v.beautified theories/Proofs/DistRustInputs.required_vo: theories/Proofs/DistRustInputs.v theories/Model/DistRustInputs.vo
 theories/Proofs/DistRustInputs.vio: theories/Proofs/DistRustInputs.v theories/Model/DistRustInputs.vio
 theories/Proofs/DistRustInputs.vos theories/Proofs/DistRustInputs.vok theories/Proofs/DistRustInputs.required_vos: theories/Proofs/DistRustInputs.v theories/Model/DistRustInputs.vos
@@ -256,12 +274,18 @@ theories/Proofs/ReqSM.vos theories/Proofs/ReqSM.vok theories/Proofs/ReqSM.requir
 theories/Proofs/RoCache.vo theories/Proofs/RoCache.glob theories/Proofs/RoCache.v.beautified theories/Proofs/RoCache.required_vo: theories/Proofs/RoCache.v theories/Base/Sx.vo theories/Model/Lru.vo theories/Model/RoCache.vo
 theories/Proofs/RoCache.vio: theories/Proofs/RoCache.v theories/Base/Sx.vio theories/Model/Lru.vio theories/Model/RoCache.vio
 theories/Proofs/RoCache.vos theories/Proofs/RoCache.vok theories/Proofs/RoCache.required_vos: theories/Proofs/RoCache.v theories/Base/Sx.vos theories/Model/Lru.vos theories/Model/RoCache.vos
+theories/Proofs/RoConc.vo theories/Proofs/RoConc.glob theories/Proofs/RoConc.v.beautified theories/Proofs/RoConc.required_vo: theories/Proofs/RoConc.v theories/Base/Sx.vo theories/Model/Lru.vo theories/Model/RoCache.vo theories/Model/RoConc.vo theories/Proofs/RoCache.vo
+theories/Proofs/RoConc.vio: theories/Proofs/RoConc.v theories/Base/Sx.vio theories/Model/Lru.vio theories/Model/RoCache.vio theories/Model/RoConc.vio theories/Proofs/RoCache.vio
+theories/Proofs/RoConc.vos theories/Proofs/RoConc.vok theories/Proofs/RoConc.required_vos: theories/Proofs/RoConc.v theories/Base/Sx.vos theories/Model/Lru.vos theories/Model/RoCache.vos theories/Model/RoConc.vos theories/Proofs/RoCache.vos
 theories/Proofs/RustArgs.vo theories/Proofs/RustArgs.glob theories/Proofs/RustArgs.v.beautified theories/Proofs/RustArgs.required_vo: theories/Proofs/RustArgs.v theories/Base/Sx.vo theories/Model/RustPath.vo theories/Model/RustArgs.vo theories/Gen/C05ArgTable.vo
 theories/Proofs/RustArgs.vio: theories/Proofs/RustArgs.v theories/Base/Sx.vio theories/Model/RustPath.vio theories/Model/RustArgs.vio theories/Gen/C05ArgTable.vio
 theories/Proofs/RustArgs.vos theories/Proofs/RustArgs.vok theories/Proofs/RustArgs.required_vos: theories/Proofs/RustArgs.v theories/Base/Sx.vos theories/Model/RustPath.vos theories/Model/RustArgs.vos theories/Gen/C05ArgTable.vos
 theories/Proofs/RustKey.vo theories/Proofs/RustKey.glob theories/Proofs/RustKey.v.beautified theories/Proofs/RustKey.required_vo: theories/Proofs/RustKey.v theories/Base/Sx.vo theories/Model/RustPath.vo theories/Model/DepInfo.vo theories/Model/RustArgs.vo theories/Model/RustKey.vo theories/Gen/C05HashSpec.vo
 theories/Proofs/RustKey.vio: theories/Proofs/RustKey.v theories/Base/Sx.vio theories/Model/RustPath.vio theories/Model/DepInfo.vio theories/Model/RustArgs.vio theories/Model/RustKey.vio theories/Gen/C05HashSpec.vio
 theories/Proofs/RustKey.vos theories/Proofs/RustKey.vok theories/Proofs/RustKey.required_vos: theories/Proofs/RustKey.v theories/Base/Sx.vos theories/Model/RustPath.vos theories/Model/DepInfo.vos theories/Model/RustArgs.vos theories/Model/RustKey.vos theories/Gen/C05HashSpec.vos
+theories/Proofs/RustToolchain.vo theories/Proofs/RustToolchain.glob theories/Proofs/RustToolchain.v.beautified theories/Proofs/RustToolchain.required_vo: theories/Proofs/RustToolchain.v theories/Model/RustToolchain.vo
+theories/Proofs/RustToolchain.vio: theories/Proofs/RustToolchain.v theories/Model/RustToolchain.vio
+theories/Proofs/RustToolchain.vos theories/Proofs/RustToolchain.vok theories/Proofs/RustToolchain.required_vos: theories/Proofs/RustToolchain.v theories/Model/RustToolchain.vos
 theories/Proofs/Scheduler.vo theories/Proofs/Scheduler.glob theories/Proofs/Scheduler.v.beautified theories/Proofs/Scheduler.required_vo: theories/Proofs/Scheduler.v theories/Base/Sx.vo theories/Gen/C18Consts.vo theories/Model/Scheduler.vo
 theories/Proofs/Scheduler.vio: theories/Proofs/Scheduler.v theories/Base/Sx.vio theories/Gen/C18Consts.vio theories/Model/Scheduler.vio
 theories/Proofs/Scheduler.vos theories/Proofs/Scheduler.vok theories/Proofs/Scheduler.required_vos: theories/Proofs/Scheduler.v theories/Base/Sx.vos theories/Gen/C18Consts.vos theories/Model/Scheduler.vos
@@ -322,15 +346,15 @@ theories/Properties/C11.vos theories/Properties/C11.vok theories/Properties/C11.
 theories/Properties/C12.vo theories/Properties/C12.glob theories/Properties/C12.v.beautified theories/Properties/C12.required_vo: theories/Properties/C12.v theories/Model/CompilerCache.vo theories/Proofs/CompilerCache.vo
 theories/Properties/C12.vio: theories/Properties/C12.v theories/Model/CompilerCache.vio theories/Proofs/CompilerCache.vio
 theories/Properties/C12.vos theories/Properties/C12.vok theories/Properties/C12.required_vos: theories/Properties/C12.v theories/Model/CompilerCache.vos theories/Proofs/CompilerCache.vos
-theories/Properties/C13.vo theories/Properties/C13.glob theories/Properties/C13.v.beautified theories/Properties/C13.required_vo: theories/Properties/C13.v theories/Base/Sx.vo theories/Model/DistStatus.vo theories/Model/DistFallback.vo theories/Model/DistArgs.vo theories/Model/DistHistory.vo theories/Model/DistRustInputs.vo theories/Proofs/DistStatus.vo theories/Proofs/DistFallback.vo theories/Proofs/DistArgs.vo theories/Proofs/DistHistory.vo theories/Proofs/DistRustInputs.vo
-theories/Properties/C13.vio: theories/Properties/C13.v theories/Base/Sx.vio theories/Model/DistStatus.vio theories/Model/DistFallback.vio theories/Model/DistArgs.vio theories/Model/DistHistory.vio theories/Model/DistRustInputs.vio theories/Proofs/DistStatus.vio theories/Proofs/DistFallback.vio theories/Proofs/DistArgs.vio theories/Proofs/DistHistory.vio theories/Proofs/DistRustInputs.vio
-theories/Properties/C13.vos theories/Properties/C13.vok theories/Properties/C13.required_vos: theories/Properties/C13.v theories/Base/Sx.vos theories/Model/DistStatus.vos theories/Model/DistFallback.vos theories/Model/DistArgs.vos theories/Model/DistHistory.vos theories/Model/DistRustInputs.vos theories/Proofs/DistStatus.vos theories/Proofs/DistFallback.vos theories/Proofs/DistArgs.vos theories/Proofs/DistHistory.vos theories/Proofs/DistRustInputs.vos
+theories/Properties/C13.vo theories/Properties/C13.glob theories/Properties/C13.v.beautified theories/Properties/C13.required_vo: theories/Properties/C13.v theories/Base/Sx.vo theories/Model/DistStatus.vo theories/Model/DistFallback.vo theories/Model/DistArgs.vo theories/Model/DistHistory.vo theories/Model/DistRustInputs.vo theories/Model/DistPaths.vo theories/Proofs/DistStatus.vo theories/Proofs/DistFallback.vo theories/Proofs/DistArgs.vo theories/Proofs/DistHistory.vo theories/Proofs/DistRustInputs.vo theories/Proofs/DistPaths.vo
+theories/Properties/C13.vio: theories/Properties/C13.v theories/Base/Sx.vio theories/Model/DistStatus.vio theories/Model/DistFallback.vio theories/Model/DistArgs.vio theories/Model/DistHistory.vio theories/Model/DistRustInputs.vio theories/Model/DistPaths.vio theories/Proofs/DistStatus.vio theories/Proofs/DistFallback.vio theories/Proofs/DistArgs.vio theories/Proofs/DistHistory.vio theories/Proofs/DistRustInputs.vio theories/Proofs/DistPaths.vio
+theories/Properties/C13.vos theories/Properties/C13.vok theories/Properties/C13.required_vos: theories/Properties/C13.v theories/Base/Sx.vos theories/Model/DistStatus.vos theories/Model/DistFallback.vos theories/Model/DistArgs.vos theories/Model/DistHistory.vos theories/Model/DistRustInputs.vos theories/Model/DistPaths.vos theories/Proofs/DistStatus.vos theories/Proofs/DistFallback.vos theories/Proofs/DistArgs.vos theories/Proofs/DistHistory.vos theories/Proofs/DistRustInputs.vos theories/Proofs/DistPaths.vos
 theories/Properties/C14.vo theories/Properties/C14.glob theories/Properties/C14.v.beautified theories/Properties/C14.required_vo: theories/Properties/C14.v theories/Base/Sx.vo theories/Model/Stats.vo theories/Model/ReqSM.vo theories/Proofs/Stats.vo theories/Proofs/ReqSM.vo
 theories/Properties/C14.vio: theories/Properties/C14.v theories/Base/Sx.vio theories/Model/Stats.vio theories/Model/ReqSM.vio theories/Proofs/Stats.vio theories/Proofs/ReqSM.vio
 theories/Properties/C14.vos theories/Properties/C14.vok theories/Properties/C14.required_vos: theories/Properties/C14.v theories/Base/Sx.vos theories/Model/Stats.vos theories/Model/ReqSM.vos theories/Proofs/Stats.vos theories/Proofs/ReqSM.vos
-theories/Properties/C15.vo theories/Properties/C15.glob theories/Properties/C15.v.beautified theories/Properties/C15.required_vo: theories/Properties/C15.v theories/Base/Sx.vo theories/Model/Lru.vo theories/Model/RoCache.vo theories/Model/DiskConfig.vo theories/Proofs/RoCache.vo theories/Proofs/DiskConfig.vo
-theories/Properties/C15.vio: theories/Properties/C15.v theories/Base/Sx.vio theories/Model/Lru.vio theories/Model/RoCache.vio theories/Model/DiskConfig.vio theories/Proofs/RoCache.vio theories/Proofs/DiskConfig.vio
-theories/Properties/C15.vos theories/Properties/C15.vok theories/Properties/C15.required_vos: theories/Properties/C15.v theories/Base/Sx.vos theories/Model/Lru.vos theories/Model/RoCache.vos theories/Model/DiskConfig.vos theories/Proofs/RoCache.vos theories/Proofs/DiskConfig.vos
+theories/Properties/C15.vo theories/Properties/C15.glob theories/Properties/C15.v.beautified theories/Properties/C15.required_vo: theories/Properties/C15.v theories/Base/Sx.vo theories/Model/Lru.vo theories/Model/RoCache.vo theories/Model/RoConc.vo theories/Model/DiskConfig.vo theories/Proofs/RoCache.vo theories/Proofs/RoConc.vo theories/Proofs/DiskConfig.vo
+theories/Properties/C15.vio: theories/Properties/C15.v theories/Base/Sx.vio theories/Model/Lru.vio theories/Model/RoCache.vio theories/Model/RoConc.vio theories/Model/DiskConfig.vio theories/Proofs/RoCache.vio theories/Proofs/RoConc.vio theories/Proofs/DiskConfig.vio
+theories/Properties/C15.vos theories/Properties/C15.vok theories/Properties/C15.required_vos: theories/Properties/C15.v theories/Base/Sx.vos theories/Model/Lru.vos theories/Model/RoCache.vos theories/Model/RoConc.vos theories/Model/DiskConfig.vos theories/Proofs/RoCache.vos theories/Proofs/RoConc.vos theories/Proofs/DiskConfig.vos
 theories/Properties/C16.vo theories/Properties/C16.glob theories/Properties/C16.v.beautified theories/Properties/C16.required_vo: theories/Properties/C16.v theories/Model/Jobserver.vo theories/Proofs/Jobserver.vo
 theories/Properties/C16.vio: theories/Properties/C16.v theories/Model/Jobserver.vio theories/Proofs/Jobserver.vio
 theories/Properties/C16.vos theories/Properties/C16.vok theories/Properties/C16.required_vos: theories/Properties/C16.v theories/Model/Jobserver.vos theories/Proofs/Jobserver.vos
@@ -352,9 +376,9 @@ theories/Properties/C20.vos theories/Properties/C20.vok theories/Properties/C20.
 theories/Properties/Composition.vo theories/Properties/Composition.glob theories/Properties/Composition.v.beautified theories/Properties/Composition.required_vo: theories/Properties/Composition.v theories/Base/Sx.vo theories/Gen/C04Consts.vo theories/Model/PpPaths.vo theories/Model/TimeMacro.vo theories/Model/PpCache.vo theories/Proofs/TimeMacro.vo theories/Proofs/PpCache.vo theories/Model/KeyEnc.vo theories/Proofs/KeyEnc.vo theories/Gen/C02HashSpec.vo theories/Model/Stats.vo theories/Model/ReqSM.vo theories/Proofs/ReqSM.vo theories/Model/Lru.vo theories/Model/HitModel.vo theories/Proofs/HitModel.vo theories/Model/DiskCache.vo theories/Proofs/DiskCache.vo theories/Proofs/Lru.vo theories/Proofs/ComposePpLocal.vo theories/Proofs/ComposeC04.vo theories/Proofs/ComposeC09.vo theories/Proofs/ComposeC03.vo theories/Proofs/ComposeStore.vo theories/Proofs/ComposeEx.vo
 theories/Properties/Composition.vio: theories/Properties/Composition.v theories/Base/Sx.vio theories/Gen/C04Consts.vio theories/Model/PpPaths.vio theories/Model/TimeMacro.vio theories/Model/PpCache.vio theories/Proofs/TimeMacro.vio theories/Proofs/PpCache.vio theories/Model/KeyEnc.vio theories/Proofs/KeyEnc.vio theories/Gen/C02HashSpec.vio theories/Model/Stats.vio theories/Model/ReqSM.vio theories/Proofs/ReqSM.vio theories/Model/Lru.vio theories/Model/HitModel.vio theories/Proofs/HitModel.vio theories/Model/DiskCache.vio theories/Proofs/DiskCache.vio theories/Proofs/Lru.vio theories/Proofs/ComposePpLocal.vio theories/Proofs/ComposeC04.vio theories/Proofs/ComposeC09.vio theories/Proofs/ComposeC03.vio theories/Proofs/ComposeStore.vio theories/Proofs/ComposeEx.vio
 theories/Properties/Composition.vos theories/Properties/Composition.vok theories/Properties/Composition.required_vos: theories/Properties/Composition.v theories/Base/Sx.vos theories/Gen/C04Consts.vos theories/Model/PpPaths.vos theories/Model/TimeMacro.vos theories/Model/PpCache.vos theories/Proofs/TimeMacro.vos theories/Proofs/PpCache.vos theories/Model/KeyEnc.vos theories/Proofs/KeyEnc.vos theories/Gen/C02HashSpec.vos theories/Model/Stats.vos theories/Model/ReqSM.vos theories/Proofs/ReqSM.vos theories/Model/Lru.vos theories/Model/HitModel.vos theories/Proofs/HitModel.vos theories/Model/DiskCache.vos theories/Proofs/DiskCache.vos theories/Proofs/Lru.vos theories/Proofs/ComposePpLocal.vos theories/Proofs/ComposeC04.vos theories/Proofs/ComposeC09.vos theories/Proofs/ComposeC03.vos theories/Proofs/ComposeStore.vos theories/Proofs/ComposeEx.vos
-theories/Run/C01.vo theories/Run/C01.glob theories/Run/C01.v.beautified theories/Run/C01.required_vo: theories/Run/C01.v theories/Base/Sx.vo theories/Model/ArgTypes.vo theories/Model/Args.vo theories/Gen/C01ArgTables.vo theories/Model/ArgsInst.vo
-theories/Run/C01.vio: theories/Run/C01.v theories/Base/Sx.vio theories/Model/ArgTypes.vio theories/Model/Args.vio theories/Gen/C01ArgTables.vio theories/Model/ArgsInst.vio
-theories/Run/C01.vos theories/Run/C01.vok theories/Run/C01.required_vos: theories/Run/C01.v theories/Base/Sx.vos theories/Model/ArgTypes.vos theories/Model/Args.vos theories/Gen/C01ArgTables.vos theories/Model/ArgsInst.vos
+theories/Run/C01.vo theories/Run/C01.glob theories/Run/C01.v.beautified theories/Run/C01.required_vo: theories/Run/C01.v theories/Base/Sx.vo theories/Model/ArgTypes.vo theories/Model/Args.vo theories/Gen/C01ArgTables.vo theories/Model/ArgsInst.vo theories/Model/EntryBytes.vo
+theories/Run/C01.vio: theories/Run/C01.v theories/Base/Sx.vio theories/Model/ArgTypes.vio theories/Model/Args.vio theories/Gen/C01ArgTables.vio theories/Model/ArgsInst.vio theories/Model/EntryBytes.vio
+theories/Run/C01.vos theories/Run/C01.vok theories/Run/C01.required_vos: theories/Run/C01.v theories/Base/Sx.vos theories/Model/ArgTypes.vos theories/Model/Args.vos theories/Gen/C01ArgTables.vos theories/Model/ArgsInst.vos theories/Model/EntryBytes.vos
 theories/Run/C02.vo theories/Run/C02.glob theories/Run/C02.v.beautified theories/Run/C02.required_vo: theories/Run/C02.v theories/Base/Sx.vo theories/Model/KeyEnc.vo theories/Gen/C02HashSpec.vo
 theories/Run/C02.vio: theories/Run/C02.v theories/Base/Sx.vio theories/Model/KeyEnc.vio theories/Gen/C02HashSpec.vio
 theories/Run/C02.vos theories/Run/C02.vok theories/Run/C02.required_vos: theories/Run/C02.v theories/Base/Sx.vos theories/Model/KeyEnc.vos theories/Gen/C02HashSpec.vos
@@ -370,9 +394,9 @@ theories/Run/C05.vos theories/Run/C05.vok theories/Run/C05.required_vos: theorie
 theories/Run/C06.vo theories/Run/C06.glob theories/Run/C06.v.beautified theories/Run/C06.required_vo: theories/Run/C06.v theories/Base/Sx.vo theories/Model/Lru.vo theories/Model/DiskCache.vo theories/Model/DiskTree.vo theories/Model/RoCache.vo
 theories/Run/C06.vio: theories/Run/C06.v theories/Base/Sx.vio theories/Model/Lru.vio theories/Model/DiskCache.vio theories/Model/DiskTree.vio theories/Model/RoCache.vio
 theories/Run/C06.vos theories/Run/C06.vok theories/Run/C06.required_vos: theories/Run/C06.v theories/Base/Sx.vos theories/Model/Lru.vos theories/Model/DiskCache.vos theories/Model/DiskTree.vos theories/Model/RoCache.vos
-theories/Run/C07.vo theories/Run/C07.glob theories/Run/C07.v.beautified theories/Run/C07.required_vo: theories/Run/C07.v theories/Base/Sx.vo theories/Model/Lru.vo
-theories/Run/C07.vio: theories/Run/C07.v theories/Base/Sx.vio theories/Model/Lru.vio
-theories/Run/C07.vos theories/Run/C07.vok theories/Run/C07.required_vos: theories/Run/C07.v theories/Base/Sx.vos theories/Model/Lru.vos
+theories/Run/C07.vo theories/Run/C07.glob theories/Run/C07.v.beautified theories/Run/C07.required_vo: theories/Run/C07.v theories/Base/Sx.vo theories/Model/Lru.vo theories/Model/LruPut.vo
+theories/Run/C07.vio: theories/Run/C07.v theories/Base/Sx.vio theories/Model/Lru.vio theories/Model/LruPut.vio
+theories/Run/C07.vos theories/Run/C07.vok theories/Run/C07.required_vos: theories/Run/C07.v theories/Base/Sx.vos theories/Model/Lru.vos theories/Model/LruPut.vos
 theories/Run/C08.vo theories/Run/C08.glob theories/Run/C08.v.beautified theories/Run/C08.required_vo: theories/Run/C08.v theories/Base/Sx.vo theories/Model/Crc32.vo theories/Model/Zip.vo
 theories/Run/C08.vio: theories/Run/C08.v theories/Base/Sx.vio theories/Model/Crc32.vio theories/Model/Zip.vio
 theories/Run/C08.vos theories/Run/C08.vok theories/Run/C08.required_vos: theories/Run/C08.v theories/Base/Sx.vos theories/Model/Crc32.vos theories/Model/Zip.vos
@@ -388,15 +412,15 @@ theories/Run/C11.vos theories/Run/C11.vok theories/Run/C11.required_vos: theorie
 theories/Run/C12.vo theories/Run/C12.glob theories/Run/C12.v.beautified theories/Run/C12.required_vo: theories/Run/C12.v theories/Base/Sx.vo theories/Model/CompilerCache.vo theories/Gen/C12Window.vo
 theories/Run/C12.vio: theories/Run/C12.v theories/Base/Sx.vio theories/Model/CompilerCache.vio theories/Gen/C12Window.vio
 theories/Run/C12.vos theories/Run/C12.vok theories/Run/C12.required_vos: theories/Run/C12.v theories/Base/Sx.vos theories/Model/CompilerCache.vos theories/Gen/C12Window.vos
-theories/Run/C13.vo theories/Run/C13.glob theories/Run/C13.v.beautified theories/Run/C13.required_vo: theories/Run/C13.v theories/Base/Sx.vo theories/Model/DistStatus.vo theories/Model/DistFallback.vo theories/Model/DistArgs.vo theories/Model/DistHistory.vo theories/Model/DistRustInputs.vo
-theories/Run/C13.vio: theories/Run/C13.v theories/Base/Sx.vio theories/Model/DistStatus.vio theories/Model/DistFallback.vio theories/Model/DistArgs.vio theories/Model/DistHistory.vio theories/Model/DistRustInputs.vio
-theories/Run/C13.vos theories/Run/C13.vok theories/Run/C13.required_vos: theories/Run/C13.v theories/Base/Sx.vos theories/Model/DistStatus.vos theories/Model/DistFallback.vos theories/Model/DistArgs.vos theories/Model/DistHistory.vos theories/Model/DistRustInputs.vos
+theories/Run/C13.vo theories/Run/C13.glob theories/Run/C13.v.beautified theories/Run/C13.required_vo: theories/Run/C13.v theories/Base/Sx.vo theories/Model/DistStatus.vo theories/Model/DistFallback.vo theories/Model/DistArgs.vo theories/Model/DistHistory.vo theories/Model/DistRustInputs.vo theories/Model/DistPaths.vo
+theories/Run/C13.vio: theories/Run/C13.v theories/Base/Sx.vio theories/Model/DistStatus.vio theories/Model/DistFallback.vio theories/Model/DistArgs.vio theories/Model/DistHistory.vio theories/Model/DistRustInputs.vio theories/Model/DistPaths.vio
+theories/Run/C13.vos theories/Run/C13.vok theories/Run/C13.required_vos: theories/Run/C13.v theories/Base/Sx.vos theories/Model/DistStatus.vos theories/Model/DistFallback.vos theories/Model/DistArgs.vos theories/Model/DistHistory.vos theories/Model/DistRustInputs.vos theories/Model/DistPaths.vos
 theories/Run/C14.vo theories/Run/C14.glob theories/Run/C14.v.beautified theories/Run/C14.required_vo: theories/Run/C14.v theories/Base/Sx.vo theories/Run/C09.vo
 theories/Run/C14.vio: theories/Run/C14.v theories/Base/Sx.vio theories/Run/C09.vio
 theories/Run/C14.vos theories/Run/C14.vok theories/Run/C14.required_vos: theories/Run/C14.v theories/Base/Sx.vos theories/Run/C09.vos
-theories/Run/C15.vo theories/Run/C15.glob theories/Run/C15.v.beautified theories/Run/C15.required_vo: theories/Run/C15.v theories/Base/Sx.vo theories/Model/Lru.vo theories/Model/RoCache.vo theories/Model/DiskConfig.vo
-theories/Run/C15.vio: theories/Run/C15.v theories/Base/Sx.vio theories/Model/Lru.vio theories/Model/RoCache.vio theories/Model/DiskConfig.vio
-theories/Run/C15.vos theories/Run/C15.vok theories/Run/C15.required_vos: theories/Run/C15.v theories/Base/Sx.vos theories/Model/Lru.vos theories/Model/RoCache.vos theories/Model/DiskConfig.vos
+theories/Run/C15.vo theories/Run/C15.glob theories/Run/C15.v.beautified theories/Run/C15.required_vo: theories/Run/C15.v theories/Base/Sx.vo theories/Model/Lru.vo theories/Model/RoCache.vo theories/Model/RoConc.vo theories/Model/DiskConfig.vo
+theories/Run/C15.vio: theories/Run/C15.v theories/Base/Sx.vio theories/Model/Lru.vio theories/Model/RoCache.vio theories/Model/RoConc.vio theories/Model/DiskConfig.vio
+theories/Run/C15.vos theories/Run/C15.vok theories/Run/C15.required_vos: theories/Run/C15.v theories/Base/Sx.vos theories/Model/Lru.vos theories/Model/RoCache.vos theories/Model/RoConc.vos theories/Model/DiskConfig.vos
 theories/Run/C16.vo theories/Run/C16.glob theories/Run/C16.v.beautified theories/Run/C16.required_vo: theories/Run/C16.v theories/Base/Sx.vo theories/Model/Jobserver.vo
 theories/Run/C16.vio: theories/Run/C16.v theories/Base/Sx.vio theories/Model/Jobserver.vio
 theories/Run/C16.vos theories/Run/C16.vok theories/Run/C16.required_vos: theories/Run/C16.v theories/Base/Sx.vos theories/Model/Jobserver.vos
